@@ -37,6 +37,9 @@ func GetSymHash(str string) SymHash {
 	if symHash, ok := readSymHash(str); ok {
 		return symHash
 	}
+	if verifEnabled {
+		verifPoint("symhash.miss")
+	}
 
 	h := fnv.New64a()
 	h.Write([]byte(str))
@@ -65,6 +68,9 @@ func writeSymHash(symHash SymHash, str string) {
 
 // SymHash2Str gets str literal from symbol hash.
 func SymHash2Str(h SymHash) (PanObject, bool) {
+	if verifEnabled {
+		verifPoint("symhash.tostr")
+	}
 	strObj, ok := strTable[h]
 	return strObj, ok
 }
